@@ -534,7 +534,7 @@ func R5(pkgs ...string) func(p *core.Prog) *core.Result {
 		if in["ubjson"] {
 			ubjsonMarkerTables(p, r)
 		}
-		r.Floor("conversions_and_heads", total, 25*len(pkgs))
+		r.Floor("conversions_and_heads", total, 15*len(pkgs))
 		return r
 	}
 }
